@@ -36,7 +36,7 @@ def shards(tier):
 
 def required_counters(tier):
     d = {"transform." + t: 50 for t in TRANSFORMS}
-    d.update({"eager.accept": 50, "eager.reject": 50, "value_independence": 100, "pytree_args": 20, "tracer_checks_observed": 500, "oracle_crosscheck": 100, "param_named_like_symbolic_name": 30, "question.cases": 50, "dict.cases": 50, "rechecked_after_warmup": 100, "mutation.cases": 50, "weak.cases": 100, "dataclass.cases": 100, "typevar.mixed_tracer_concrete": 200})
+    d.update({"eager.accept": 50, "eager.reject": 50, "value_independence": 100, "pytree_args": 20, "tracer_checks_observed": 500, "oracle_crosscheck": 100, "param_named_like_symbolic_name": 30, "question.cases": 50, "dict.cases": 50, "rechecked_after_warmup": 100, "mutation.cases": 50, "weak.cases": 100, "rank0_any.cases": 50, "local_string_annotations.cases": 50, "dataclass.cases": 100, "typevar.mixed_tracer_concrete": 200})
     return d
 
 
@@ -433,6 +433,55 @@ def run_mixed_case(rec, rng, rngkey):
         rec.case(("typevar", n, m, cname), True)
         if eager != want:
             rec.violation("eager-vs-oracle", case, f"g(x: Float[T,'n'], w: Float[T,'n']) with sizes {n},{m}: eager {eager}, expected {want}", mechanism=f"typevar-eager-{eager}-expected-{want}")
+        # annotations written as strings that name a LOCAL alias (only resolvable, if at all, from the defining scope):
+        # whatever the library makes of them, traced calls and eager calls get the same treatment - in either order
+        def local_scope(first):
+            nsl = {"__name__": "jtv_c17_generated", "jnp": jnp, "jax": jax, "jaxtyped": jaxtyped, "tc": checker, "LL": jaxtyping.Float[jax.Array, "n"], "classify": classify}
+            src = (
+                "def outer(first, a, b, a2, b2):\n"
+                "    L = LL\n"
+                "    @jaxtyped(typechecker=tc)\n"
+                "    def f(x: 'L', y: 'L'):\n"
+                "        return jnp.sum(x) + jnp.sum(y)\n"
+                "    res = {}\n"
+                "    for k in [first] + [q for q in ('eager', 'jit', 'eval_shape', 'vmap') if q != first]:\n"
+                "        try:\n"
+                "            if k == 'eager':\n"
+                "                f(a, b)  # called from the very frame in which L is a local name\n"
+                "            elif k == 'jit':\n"
+                "                jax.jit(f)(a, b)\n"
+                "            elif k == 'eval_shape':\n"
+                "                jax.eval_shape(f, a, b)\n"
+                "            else:\n"
+                "                jax.vmap(f)(a2, b2)\n"
+                "            res[k] = 'accept'\n"
+                "        except Exception as e:\n"
+                "            res[k] = classify(e)\n"
+                "    return res\n"
+            )
+            real.exec_src(src, nsl)
+            a, b = jax.device_put(np.zeros((n,), "float32")), jax.device_put(np.zeros((m,), "float32"))
+            return nsl["outer"](first, a, b, jnp.stack([a, a]), jnp.stack([b, b]))
+
+        for first in ("jit", "eager"):
+            res = local_scope(first)
+            rec.count("local_string_annotations.cases")
+            if len(set(res.values())) > 1:
+                rec.violation("trace-vs-eager", dict(case, first_call=first, local_string_annotations=True), f"function whose annotations are strings naming a local alias (sizes {n},{m}; first call: {first}): {res}", mechanism="local-string-annotations-eager-and-traced-differ")
+        # rank-0 values behind `Any` / an unconstrained TypeVar (a rank-0 shape is `()`, which is falsy)
+        ns0 = {"__name__": "jtv_c17_generated", "jnp": jnp, "X": jaxtyping.Float[typing.Any, "n"], "S": jaxtyping.Float[T, ""], "R": jaxtyping.Float[typing.Any, ""]}
+        real.exec_src("def r0(x: X, s: S) -> R:\n    return jnp.sum(x) * s\n", ns0)
+        r0 = jaxtyped(typechecker=checker)(ns0["r0"])
+        s0 = jax.device_put(np.float32(2.0))
+        e0 = attempt(lambda: r0(x, s0))
+        rec.count("rank0_any.cases")
+        if e0 != "accept":
+            rec.violation("eager-vs-oracle", dict(case, fn="r0"), f"r0(x: Float[Any,'n'], s: Float[T,'']) -> Float[Any,''] eagerly: {e0}", mechanism="rank0-any-eager-" + e0)
+        for t, thunk in (("jit", lambda: jax.jit(r0)(x, s0)), ("vmap", lambda: jax.vmap(r0, in_axes=(0, None))(jnp.stack([x, x]), s0)), ("vmap-scalar", lambda: jax.vmap(r0, in_axes=(None, 0))(x, jnp.stack([s0, s0]))), ("grad", lambda: jax.grad(r0, argnums=1)(x, s0)), ("eval_shape", lambda: jax.eval_shape(r0, x, s0))):
+            v = attempt(thunk)
+            rec.count("transform." + t.split("-")[0])
+            if v != e0:
+                rec.violation("trace-vs-eager", dict(case, transform=t, fn="r0"), f"rank-0 values behind Any / TypeVar: {t} {v}, eager {e0}", mechanism=f"rank0-any-trace-{v.split(':')[0]}-eager-{e0}")
         sc = lambda a, b: jnp.sum(g(a, b))
         for t, thunk in (
             ("jit", lambda: jax.jit(g)(x, w)),
